@@ -141,3 +141,111 @@ Print Assumptions C19_rejected_only_on_mismatch.
 Print Assumptions C19_effective_matrix.
 Print Assumptions C19_quantile_equivariant.
 Print Assumptions C19_nrmse_q1q3_affine_invariant.
+
+(* ================================================================================================================ *)
+(* Tie (T): _check_arrays, mse, rmse, nrmse, rsquare and the matrix effective_spectral_radius hands to spectral_radius, as
+   translated on this run from the current source text of reservoirpy/observables.py (coq/gen/Gen_metrics.v: one definition
+   per function, rank of the arrays and value of `dimensionwise`, in the numpy vocabulary of base/NDPrelude.v where a
+   reduction along an axis is the 1-D reduction of every lane) ARE the model the theorems above are about.
+   rmse / nrmse are translated through their radicand / (radicand, norm) pairs, as in the model (no sqrt over Q).           *)
+From RV Require Import base.NDPrelude gen.Gen_metrics proofs.Gen_metrics_eq.
+
+(* _check_arrays, for any two arrays (equal or different ranks): every Num instance *)
+Theorem C19_generated_check_arrays {F : Type} `{Num F} (y p : arr F) :
+  GenMetrics.check_arrays shp shp y p = check_arrays y p.
+Proof. exact (gen_check_arrays_eq y p). Qed.
+
+(* rank 1, every Num instance, every input (hence also at Q, where the correspondence runs) *)
+Theorem C19_generated_mse_1d {F : Type} `{Num F} (y p : list F) :
+  option_map RS (GenMetrics.mse_r1_g y p) = mse false (A1 y) (A1 p) /\
+  option_map RS (GenMetrics.mse_r1_dw y p) = mse true (A1 y) (A1 p).
+Proof. exact (gen_mse_r1_eq y p). Qed.
+Theorem C19_generated_rmse_1d {F : Type} `{Num F} (y p : list F) :
+  option_map RS (GenMetrics.rmse_sq_r1_g y p) = rmse_sq false (A1 y) (A1 p) /\
+  option_map RS (GenMetrics.rmse_sq_r1_dw y p) = rmse_sq true (A1 y) (A1 p).
+Proof. exact (gen_rmse_sq_r1_eq y p). Qed.
+Theorem C19_generated_rsquare_1d {F : Type} `{Num F} (y p : list F) :
+  option_map RS (GenMetrics.rsquare_r1_g y p) = rsquare false (A1 y) (A1 p) /\
+  option_map RS (GenMetrics.rsquare_r1_dw y p) = rsquare true (A1 y) (A1 p) /\
+  option_map inl (GenMetrics.rsquare_parts_r1_g y p) = rsquare_parts false (A1 y) (A1 p) /\
+  option_map inl (GenMetrics.rsquare_parts_r1_dw y p) = rsquare_parts true (A1 y) (A1 p).
+Proof. exact (gen_rsquare_r1_eq y p). Qed.
+(* nk maps the model's four norms to the keys of the `norms` table of the source *)
+Theorem C19_generated_nrmse_1d {F : Type} `{Num F} (k : normk) (nv : F) (y p : list F) :
+  option_map inl (GenMetrics.nrmse_parts_r1_g y p (nk k)) = nrmse_parts false k (A1 y) (A1 p) /\
+  option_map inl (GenMetrics.nrmse_parts_r1_dw y p (nk k)) = nrmse_parts true k (A1 y) (A1 p) /\
+  option_map inl (GenMetrics.nrmse_parts_nv_r1_g y p nv) = nrmse_parts_nv false nv (A1 y) (A1 p) /\
+  option_map inl (GenMetrics.nrmse_parts_nv_r1_dw y p nv) = nrmse_parts_nv true nv (A1 y) (A1 p).
+Proof. exact (gen_nrmse_r1_eq k nv y p). Qed.
+
+(* lr * W + (1 - lr) * np.eye(W.shape[0]): every Num instance, every W *)
+Theorem C19_generated_effective_matrix {F : Type} `{Num F} (lr : F) (W : list (list F)) :
+  GenMetrics.effective_matrix W lr = eff_matrix lr W.
+Proof. exact (gen_effective_matrix_eq lr W). Qed.
+
+(* rank 2 and rank 3 at R, rectangular arrays: a reduction along axis 0 / axes (0,1) taken lane by lane (the numpy meaning of
+   NDPrelude) is the row-by-row accumulation of the model.  [rect c m]: every row of m has c entries; [rect3 n c t]: every
+   sequence of t has n rows of c entries.  The number of features is read off the first row, as ndarray.shape does. *)
+Theorem C19_generated_mse (y2 p2 : mat) (y3 p3 : list mat) :
+  rect (length (hd [] y2)) y2 -> rect (length (hd [] y2)) p2 ->
+  rect3 (length (hd [] y3)) (length (hd [] (hd [] y3))) y3 -> rect3 (length (hd [] y3)) (length (hd [] (hd [] y3))) p3 ->
+  (option_map RS (GenMetrics.mse_r2_g y2 p2) = mse false (A2 y2) (A2 p2) /\
+   option_map RV (GenMetrics.mse_r2_dw y2 p2) = mse true (A2 y2) (A2 p2)) /\
+  (option_map RS (GenMetrics.mse_r3_g y3 p3) = mse false (A3 y3) (A3 p3) /\
+   option_map RV (GenMetrics.mse_r3_dw y3 p3) = mse true (A3 y3) (A3 p3)).
+Proof. intros; split; [apply gen_mse_r2_eq | apply gen_mse_r3_eq]; assumption. Qed.
+Theorem C19_generated_rmse (y2 p2 : mat) (y3 p3 : list mat) :
+  rect (length (hd [] y2)) y2 -> rect (length (hd [] y2)) p2 ->
+  rect3 (length (hd [] y3)) (length (hd [] (hd [] y3))) y3 -> rect3 (length (hd [] y3)) (length (hd [] (hd [] y3))) p3 ->
+  (option_map RS (GenMetrics.rmse_sq_r2_g y2 p2) = rmse_sq false (A2 y2) (A2 p2) /\
+   option_map RV (GenMetrics.rmse_sq_r2_dw y2 p2) = rmse_sq true (A2 y2) (A2 p2)) /\
+  (option_map RS (GenMetrics.rmse_sq_r3_g y3 p3) = rmse_sq false (A3 y3) (A3 p3) /\
+   option_map RV (GenMetrics.rmse_sq_r3_dw y3 p3) = rmse_sq true (A3 y3) (A3 p3)).
+Proof. intros; split; [apply gen_rmse_sq_r2_eq | apply gen_rmse_sq_r3_eq]; assumption. Qed.
+Theorem C19_generated_rsquare (y2 p2 : mat) (y3 p3 : list mat) :
+  rect (length (hd [] y2)) y2 -> rect (length (hd [] y2)) p2 ->
+  rect3 (length (hd [] y3)) (length (hd [] (hd [] y3))) y3 -> rect3 (length (hd [] y3)) (length (hd [] (hd [] y3))) p3 ->
+  (option_map RS (GenMetrics.rsquare_r2_g y2 p2) = rsquare false (A2 y2) (A2 p2) /\
+   option_map RV (GenMetrics.rsquare_r2_dw y2 p2) = rsquare true (A2 y2) (A2 p2) /\
+   option_map inl (GenMetrics.rsquare_parts_r2_g y2 p2) = rsquare_parts false (A2 y2) (A2 p2) /\
+   option_map inr (GenMetrics.rsquare_parts_r2_dw y2 p2) = rsquare_parts true (A2 y2) (A2 p2)) /\
+  (option_map RS (GenMetrics.rsquare_r3_g y3 p3) = rsquare false (A3 y3) (A3 p3) /\
+   option_map RV (GenMetrics.rsquare_r3_dw y3 p3) = rsquare true (A3 y3) (A3 p3) /\
+   option_map inl (GenMetrics.rsquare_parts_r3_g y3 p3) = rsquare_parts false (A3 y3) (A3 p3) /\
+   option_map inr (GenMetrics.rsquare_parts_r3_dw y3 p3) = rsquare_parts true (A3 y3) (A3 p3)).
+Proof. intros; split; [apply gen_rsquare_r2_eq | apply gen_rsquare_r3_eq]; assumption. Qed.
+Theorem C19_generated_nrmse (k : normk) (nv : R) (y2 p2 : mat) (y3 p3 : list mat) :
+  rect (length (hd [] y2)) y2 -> rect (length (hd [] y2)) p2 ->
+  rect3 (length (hd [] y3)) (length (hd [] (hd [] y3))) y3 -> rect3 (length (hd [] y3)) (length (hd [] (hd [] y3))) p3 ->
+  (option_map inl (GenMetrics.nrmse_parts_r2_g y2 p2 (nk k)) = nrmse_parts false k (A2 y2) (A2 p2) /\
+   option_map inr (GenMetrics.nrmse_parts_r2_dw y2 p2 (nk k)) = nrmse_parts true k (A2 y2) (A2 p2) /\
+   option_map inl (GenMetrics.nrmse_parts_nv_r2_g y2 p2 nv) = nrmse_parts_nv false nv (A2 y2) (A2 p2) /\
+   option_map inr (GenMetrics.nrmse_parts_nv_r2_dw y2 p2 nv) = nrmse_parts_nv true nv (A2 y2) (A2 p2)) /\
+  (option_map inl (GenMetrics.nrmse_parts_r3_g y3 p3 (nk k)) = nrmse_parts false k (A3 y3) (A3 p3) /\
+   option_map inr (GenMetrics.nrmse_parts_r3_dw y3 p3 (nk k)) = nrmse_parts true k (A3 y3) (A3 p3) /\
+   option_map inl (GenMetrics.nrmse_parts_nv_r3_g y3 p3 nv) = nrmse_parts_nv false nv (A3 y3) (A3 p3) /\
+   option_map inr (GenMetrics.nrmse_parts_nv_r3_dw y3 p3 nv) = nrmse_parts_nv true nv (A3 y3) (A3 p3)).
+Proof. intros; split; [apply gen_nrmse_r2_eq | apply gen_nrmse_r3_eq]; assumption. Qed.
+
+(* non-vacuity: the generated definitions compute (at Q), the shape hypotheses are satisfiable *)
+Example C19_generated_computes :
+  GenMetrics.mse_r2_dw (F:=Q) [[1;2];[3;5]]%Q [[1;1];[1;1]]%Q = Some [2;(17#2)]%Q /\
+  GenMetrics.rsquare_r1_g (F:=Q) [1;2;3]%Q [1;2;4]%Q = Some (1#2)%Q /\
+  GenMetrics.nrmse_parts_r3_dw (F:=Q) [[[1];[2]];[[4];[8]]]%Q [[[1];[2]];[[4];[6]]]%Q GenMetrics.Nm_q1q3 = Some [(1, (13#4))%Q] /\
+  GenMetrics.mse_r2_g (F:=Q) [[1;2];[3;5]]%Q [[1;2]]%Q = None /\
+  GenMetrics.effective_matrix (F:=Q) [[4;8];[0;(-4)]]%Q (1#4)%Q = [[(7#4);2];[0;(-1#4)]]%Q.
+Proof. vm_compute. repeat split; reflexivity. Qed.
+Example C19_generated_shapes_instance :
+  let y := [[[1;2];[3;4]];[[5;6];[7;9]]] in rect3 (length (hd [] y)) (length (hd [] (hd [] y))) y /\ rect (length (hd [] (hd [] y))) (hd [] y).
+Proof. cbn. split; repeat constructor. Qed.
+
+Print Assumptions C19_generated_check_arrays.
+Print Assumptions C19_generated_mse_1d.
+Print Assumptions C19_generated_rmse_1d.
+Print Assumptions C19_generated_rsquare_1d.
+Print Assumptions C19_generated_nrmse_1d.
+Print Assumptions C19_generated_effective_matrix.
+Print Assumptions C19_generated_mse.
+Print Assumptions C19_generated_rmse.
+Print Assumptions C19_generated_rsquare.
+Print Assumptions C19_generated_nrmse.
